@@ -958,6 +958,11 @@ class vPeriod(TimeBase):
             start, end_or_duration = ical.split('/')
             start = vDDDTypes.from_ical(start, timezone=timezone)
             end_or_duration = vDDDTypes.from_ical(end_or_duration, timezone=timezone)
+            if not isinstance(start, datetime):
+                raise ValueError('The start of a period must be a date-time.')
+            # reject what cannot be written again: an end before the start,
+            # a floating start with a UTC end, a date as end
+            vPeriod((start, end_or_duration)).to_ical()
             return (start, end_or_duration)
         except Exception:
             raise ValueError(f'Expected period format, got: {ical}')
